@@ -94,6 +94,7 @@ def gen_script(rng, case, m, ncalls):
     op_targets = [ip for ip in m.ip_trace[:40]]
     script = {}
     used = set()
+    reread = []
     for c in range(ncalls + 2):
         if rng.random() < 0.3:
             continue
@@ -110,13 +111,15 @@ def gen_script(rng, case, m, ncalls):
                     v = rng.choice(op_targets)                # redirect a jump word to a real op
                 elif vr < 0.5:
                     v = rng.randrange(4 * w)
-                elif vr < 0.6 and w == 64:
-                    v = G.MAGIC
+                elif vr < 0.62 and w == 64:
+                    v = rng.choice([G.MAGIC, G.MAGIC, G.MAGIC ^ (1 << rng.randrange(64))])
                 elif vr < 0.7:
                     v = 0
                 else:
                     v = rng.getrandbits(w)
                 acts.append(['ww', a, v])
+                if v == G.MAGIC or rng.random() < 0.15:
+                    reread.append(a)          # read the same word back at a later call
             elif r < 0.85:
                 opa = (a & ~1) << ww
                 acts.append(['rb', opa])
@@ -124,6 +127,8 @@ def gen_script(rng, case, m, ncalls):
                 opa = (a & ~1) << ww
                 acts.append(['wb', opa, rng.randrange(256)])
             used.add(cname + ':' + acts[-1][0])
+        if reread and rng.random() < 0.7:
+            acts.append(['rw', reread.pop(0)])
         script[str(c)] = acts
     return script, sorted(used)
 
